@@ -32,7 +32,8 @@ LEVEL_TEXT = ("Exploration: thousands of generated single-rooted trees (all shap
               " Generated trees come in several representations of the same values (strided, other dtypes / lists, one array as two columns, read-only where the harness never writes) and half of them were queried, a third put through aborted operations, before use."
               " Trees the library derived from used ones (also with float64 coordinates); size sweep with 32-bit id tables and big branched trees."
               " read / sort call forms spelled positionally, by keyword and with defaults written out."
-              " Sorted results re-rooted without sorting / re-linked in place and sorted again; sort_nodes_impl results kept across another sort; the C03 contract set (incl. re-verification of earlier results) is active.")
+              " Sorted results re-rooted without sorting / re-linked in place and sorted again; sort_nodes_impl results kept across another sort; the C03 contract set (incl. re-verification of earlier results) is active."
+              " Sorting twins under custom column names.")
 LEVEL_NOTE = ("Trusts the tag oracle (dict comparison) and pandas/numpy equality; sibling order "
               "and integer dtype width are free.")
 RULE = ("cases = (tree recipe, form in {tree, table, table-inplace, file}, id scheme, row order, "
